@@ -618,3 +618,37 @@ def nonsymmorphic_specs(rng=None, nrandom=0):
         if u in (tuple([o] * d), c) or tuple(mod1(ck + mk * vk) for ck, mk, vk in zip(c, m, u)) in (u, tuple([o] * d), c): continue
         fam("ns-rand%d" % k, Aq, c, m, u, extra=tuple(rng.choice([Fr(1, 8), Fr(1, 5), Fr(1, 3), Fr(1, 6)]) for _ in range(d)) if rng.random() < 0.5 else None)
     return out
+
+
+def glide_specs():
+    """2-D plane groups with glide lines (pg, pmg, pgg, p4g) from general positions, and 3-D non-symmorphic ones (Pnma-like 4 sites, hcp)"""
+    o, h, i = Fr(0), Fr(1, 2), Fr(1)
+    out = []
+    rect = [[i, o], [o, Fr(7, 5)]]; sq = [[i, o], [o, i]]
+    x, y = Fr(13, 100), Fr(1, 5)
+    m = lambda *v: tuple(mod1(a) for a in v)
+    def add(label, Aq, basis):
+        A = np.array([[float(t) for t in r] for r in Aq]); out.append(Spec(label, A, fmat_mul(fmat_T(Aq), Aq), basis, None, Aq))
+    add("pg", rect, [[m(x, y), m(x + h, -y)]])
+    add("pmg", rect, [[m(x, y), m(-x, -y), m(-x + h, y), m(x + h, -y)]])
+    add("pgg", rect, [[m(x, y), m(-x, -y), m(x + h, -y + h), m(-x + h, y + h)]])
+    add("p4g", sq, [[m(x, y), m(-x, -y), m(-y, x), m(y, -x), m(-x + h, y + h), m(x + h, -y + h), m(y + h, x + h), m(-y + h, -x + h)]])
+    add("pg-2species", rect, [[m(x, y), m(x + h, -y)], [m(Fr(3, 10), Fr(2, 5)), m(Fr(4, 5), Fr(3, 5))]])
+    orth = [[i, o, o], [o, Fr(7, 5), o], [o, o, Fr(19, 10)]]
+    add("pnma-4site", orth, [[m(Fr(1, 10), Fr(1, 4), Fr(1, 5)), m(Fr(3, 5), Fr(1, 4), Fr(3, 10)), m(Fr(9, 10), Fr(3, 4), Fr(4, 5)), m(Fr(2, 5), Fr(3, 4), Fr(7, 10))]])
+    out += [s_ for s_ in named_specs() if s_.label in ("hcp", "diamond")]
+    return out
+
+
+def rotate_frame(spec, Q, tag="+rot"):
+    """the same crystal in a rigidly rotated Cartesian frame: lattice Q A (not a symmetric matrix any more), same metric / coordinates"""
+    Q = np.asarray(Q, dtype=float)[:spec.dim, :spec.dim]
+    return Spec(spec.label + tag, Q @ spec.A, spec.g, spec.basis, spec.spins, None)
+
+
+def random_rotation(rng, dim):
+    if dim == 2:
+        t = rng.uniform(0.2, 2.9); return np.array([[math.cos(t), -math.sin(t)], [math.sin(t), math.cos(t)]])
+    v = np.array([rng.gauss(0, 1) for _ in range(3)]); v /= np.linalg.norm(v); t = rng.uniform(0.2, 2.9)
+    K = np.array([[0, -v[2], v[1]], [v[2], 0, -v[0]], [-v[1], v[0], 0]])
+    return np.eye(3) + math.sin(t) * K + (1 - math.cos(t)) * K @ K
